@@ -68,6 +68,18 @@ def ran_object_lookup(run):
     return lookup
 
 
+def typed_texts(program):
+    """-> number of typed step texts (program.PHRASE["typed"]) that occur with >= 2 step types."""
+    from .harness import _all_step_lists
+    types = {}
+    for feat in program["features"]:
+        for steps in _all_step_lists(feat):
+            for s in steps:
+                if s.get("o") == "typed":
+                    types.setdefault(s["uid"], set()).add(s.get("st"))
+    return sum(1 for v in types.values() if len(v) >= 2)
+
+
 def check_verdict(res, prefix, ref, run):
     if run.escaped is not None:
         res.fail(prefix + ".escape", "exception escaped run(): %r" % (run.escaped,))
